@@ -112,6 +112,20 @@ func init() {
 		}
 		return out
 	}
+	// ExpandString with concrete arguments (dst must be empty)
+	externals["(*regexp.Regexp).ExpandString"] = func(fr *frame, args []value) value {
+		if d, ok := args[1].([]value); ok && len(d) != 0 {
+			panic(unsupported("ExpandString onto a non-empty destination"))
+		}
+		tmpl := concStr(args[2], "ExpandString template")
+		src := concStr(args[3], "ExpandString source")
+		var m []int
+		for _, g := range args[4].([]value) {
+			m = append(m, int(asInt64(g)))
+		}
+		out := reOf(args[0]).re.ExpandString(nil, tmpl, src, m)
+		return strBytes(string(out))
+	}
 	externals["(*regexp.Regexp).ReplaceAllString"] = func(fr *frame, args []value) value {
 		return reOf(args[0]).re.ReplaceAllString(concStr(args[1], "ReplaceAllString"), concStr(args[2], "ReplaceAllString"))
 	}
